@@ -199,6 +199,8 @@ Definition allowed_sites : list ((string * string * callee * string * Z) * site_
   (("src/transports/dtls/mod.rs", "DtlsInner::handle_retransmit", CSendBatch, "self.conn", 1), DtlsRecord);
   (("src/transports/dtls/mod.rs", "DtlsInner::handle_server_hello_done", CSendBatch, "self.conn", 1), DtlsRecord);
   (("src/transports/dtls/mod.rs", "DtlsInner::handshake", CSend, "self.conn", 1), DtlsRecord);
+  (* added with /repo 1decd50: a Connected server re-sends its final flight (sealed DTLS records) *)
+  (("src/transports/dtls/mod.rs", "DtlsInner::process_handshake_payload", CSendBatch, "self.conn", 1), DtlsRecord);
   (("src/transports/dtls/mod.rs", "DtlsInner::send_handshake_message", CSend, "self.conn", 1), DtlsRecord);
   (("src/transports/dtls/mod.rs", "DtlsTransport::send_record", CSend, "self.inner.conn", 1), DtlsRecord)].
 
